@@ -14,12 +14,16 @@
 //
 //	types       uint8/16/32/64, int8/16/32/64, int, uint (64 bit), named integer types, bool,
 //	            float64, float32 (values, constants, conversions; arithmetic on float64 only),
-//	            [N]byte arrays (can.Data), []byte (contents only, see "slices" below), slices of any
+//	            [N]byte arrays (can.Data), []byte (contents only, see "slices" below), []S / []*S with S
+//	            a named struct of this module (the LIST of the element values: len, range; elements of
+//	            a []*S assumed non-nil), slices of any
 //	            other element type reduced to their LENGTH (only len(x)), string (constants, locals,
 //	            parameters, results; == != and switch), go/types.Type / *go/types.Basic values obtained as
 //	            types.Typ[kind] (reduced to the kind), named structs whose USED fields have these
 //	            types - including fields promoted through embedded structs (x.f = x.E.f) -,
-//	            pointers to such arrays/structs as parameters/receivers only, `error` results
+//	            pointers to such arrays/structs as parameters/receivers (= the value pointed to);
+//	            *S as a RESULT or as a LOCAL (range variable over a []*S, result of a call) is option S
+//	            (nil = None; p.f reads the zero value for nil: that panic is not modelled); `error` results
 //	functions   any number of results (several results = a tuple); a function may write through at
 //	            most ONE pointer parameter OR one []byte parameter: without results it is translated
 //	            to a function returning that parameter's final value (for a []byte: its final
@@ -27,13 +31,19 @@
 //	            contains the explicit bounds check `_ = b[k]` returns option (None = that check
 //	            panics) and cannot be called from another translated function;
 //	            only functions with exactly one result and no written pointer can be CALLED in an
-//	            expression, only result-less ones as a statement; no recursion; unnamed / blank
+//	            expression, only result-less ones as a statement; a pure function with several results
+//	            can be called as `x, y := g(...)` and as `return g(...)`; no recursion; unnamed / blank
 //	            parameters are kept
 //	statements  x := e, x = e, x op= e, x++, x--, `var x T`, `var x T = e` on locals;
 //	            a[i] = e, a[i] op= e, s.f = e, s.f op= e (functional update of arrays / records);
 //	            if / else if / else (with init statement), switch with or without tag (constant or
 //	            non-constant cases, default anywhere, no fallthrough/break), return, nested blocks,
 //	            calls of whitelisted result-less functions as statements;
+//	            loops: `for k, x := range e {...}` (e a []S / []*S / []byte; k, x new variables or _) and
+//	            `for i := 0; i < len(x); i++ {...}` (i an int, the body assigns neither i nor x) whose
+//	            body consists of statements of this subset, `continue` and `return`: translated to
+//	            GoSem.v's go_range (a fold over the list with early exit; the state = the locals
+//	            declared before the loop that the body assigns); no break/goto/labels;
 //	            nlenc.PutUint8/16/32/64 / PutInt32(b[lo:hi], v), binary.LittleEndian.PutUint16/32/64
 //	            (b[lo:hi], v) and copy(dst, src) as statements; `_ = b[k]` (b []byte, k constant)
 //	expressions constants (folded by go/types; floats printed as the IEEE bit pattern of the rounded
@@ -171,6 +181,12 @@ var whitelist = []struct{ pkg, recv, name string }{
 	{"pkg/dbc", "EnvironmentVariableType", "Validate"},
 	{"pkg/dbc", "AttributeValueType", "Validate"},
 	{"pkg/dbc", "ObjectType", "Validate"},
+	{"pkg/descriptor", "Database", "Message"},
+	{"pkg/descriptor", "Database", "Node"},
+	{"pkg/descriptor", "Database", "Signal"},
+	{"pkg/descriptor", "Message", "MultiplexerSignal"},
+	{"pkg/descriptor", "Signal", "ValueDescription"},
+	{"pkg/descriptor", "Signal", "UnmarshalValueDescription"},
 }
 
 // ---------------------------------------------------------------------------- errors
@@ -224,6 +240,7 @@ const (
 	kLen   // a slice whose elements are outside the subset: only its length is kept (len(x))
 	kString
 	kBasicTy // go/types.Type values obtained as types.Typ[kind]: the kind
+	kList    // []*S / []S with S a named struct of the subset: the list of the element VALUES
 )
 
 type gtype struct {
@@ -233,6 +250,7 @@ type gtype struct {
 	n      int64
 	st     *structInfo
 	ptr    bool
+	opt    bool // a *S result or local: option S (nil = None); parameters/receivers of type *S are the value
 }
 
 type structInfo struct {
@@ -297,6 +315,15 @@ func (t *translator) classify(pos token.Pos, typ types.Type) gtype {
 		if b, ok := u.Elem().Underlying().(*types.Basic); ok && b.Kind() == types.Uint8 {
 			return gtype{k: kBytes}
 		}
+		et := u.Elem()
+		if p, ok := et.(*types.Pointer); ok {
+			et = p.Elem()
+		}
+		if n, ok := et.(*types.Named); ok {
+			if est, ok := n.Underlying().(*types.Struct); ok && n.Obj().Pkg() != nil && strings.HasPrefix(n.Obj().Pkg().Path(), modPath) {
+				return gtype{k: kList, st: t.structOf(n, est)}
+			}
+		}
 		return gtype{k: kLen}
 	case *types.Interface:
 		if n, ok := typ.(*types.Named); ok && n.Obj().Pkg() != nil && n.Obj().Pkg().Path() == "go/types" && n.Obj().Name() == "Type" {
@@ -339,7 +366,12 @@ func (g gtype) coq() string {
 	case kArray:
 		return "data"
 	case kStruct:
+		if g.opt {
+			return "(option " + g.st.coq + ")"
+		}
 		return g.st.coq
+	case kList:
+		return "(list " + g.st.coq + ")"
 	case kFloat:
 		return fmt.Sprintf("go_f%d", g.bits)
 	case kBytes:
@@ -366,7 +398,7 @@ func (g gtype) same(h gtype) bool {
 		return g.bits == h.bits
 	case kArray:
 		return g.n == h.n
-	case kStruct:
+	case kStruct, kList:
 		return g.st == h.st
 	}
 	return true
@@ -388,10 +420,16 @@ func (t *translator) zero(pos token.Pos, g gtype) string {
 		return "bytes_nil"
 	case kLen:
 		return "0"
-	case kString:
+	case kString, kList:
 		return "[]"
 	case kBasicTy:
 		t.failf(pos, "zero value of go/types.Type")
+	}
+	if g.opt {
+		return "None"
+	}
+	if len(g.st.fields) == 0 {
+		return "mk_" + g.st.coq
 	}
 	// struct: only meaningful once the used-field set is complete (phase 2)
 	var parts []string
@@ -589,7 +627,10 @@ func (t *translator) analyse(key string, from token.Pos) *fn {
 		}
 		g := t.classify(d.decl.Type.Results.Pos(), rv.Type())
 		if g.ptr {
-			t.failf(d.decl.Type.Results.Pos(), "pointer result")
+			if g.k != kStruct {
+				t.failf(d.decl.Type.Results.Pos(), "pointer result")
+			}
+			g.ptr, g.opt = false, true // *S result: option S
 		}
 		f.results = append(f.results, g)
 	}
@@ -797,6 +838,9 @@ type fctx struct {
 	info  *types.Info
 	vars  map[types.Object]string // Go variable -> Coq name
 	taken map[string]bool
+	// optVars: locals of type *S (range variables over a []*S, results of calls): option S
+	optVars map[types.Object]bool
+	loops   []string // enclosing loops, innermost last: the tuple of the loop's state variables
 }
 
 func pad(n int) string { return strings.Repeat(" ", n) }
@@ -1257,7 +1301,7 @@ func (c *fctx) expr(e ast.Expr) string {
 			t.failf(x.Pos(), "selector %s is not a struct field", x.Sel.Name)
 		}
 		c.typeOf(e) // the field's own type must be in the subset
-		out := c.expr(x.X)
+		out := c.structVal(x.X)
 		for _, st := range t.fieldSteps(x.Pos(), sel) {
 			out = fmt.Sprintf("(%s_%s %s)", st.st.coq, st.fld.Name(), out)
 		}
@@ -1293,6 +1337,8 @@ func (c *fctx) expr(e ast.Expr) string {
 				return fmt.Sprintf("(bytes_len %s)", c.expr(x.Args[0]))
 			case kLen:
 				return c.expr(x.Args[0]) // the slice IS its length
+			case kList:
+				return fmt.Sprintf("(list_len %s)", c.expr(x.Args[0]))
 			}
 			t.failf(x.Pos(), "len of %s", c.info.TypeOf(x.Args[0]))
 		case "make":
@@ -1366,6 +1412,17 @@ func (c *fctx) expr(e ast.Expr) string {
 	panic("unreachable")
 }
 
+// structVal: the struct VALUE an expression of type S or *S denotes: a parameter *S is the value; a
+// local *S (option S) is dereferenced with go_deref (nil dereference panics in Go: not modelled, the
+// zero value is read).
+func (c *fctx) structVal(e ast.Expr) string {
+	if id, ok := ast.Unparen(e).(*ast.Ident); ok && c.optVars[c.info.Uses[id]] {
+		g := c.typeOf(id)
+		return fmt.Sprintf("(go_deref zero_%s %s)", g.st.coq, c.vars[c.info.Uses[id]])
+	}
+	return c.expr(e)
+}
+
 func (c *fctx) call(x *ast.CallExpr, g *fn) string {
 	args := c.t.callArgs(c.info, x, g)
 	parts := []string{g.coq}
@@ -1378,6 +1435,10 @@ func (c *fctx) call(x *ast.CallExpr, g *fn) string {
 		have := c.typeOf(a)
 		if !have.same(want) {
 			c.t.failf(a.Pos(), "argument type does not match parameter %s of %s", g.params[i].v.Name(), g.display)
+		}
+		if want.k == kStruct {
+			parts = append(parts, c.structVal(a))
+			continue
 		}
 		parts = append(parts, c.expr(a))
 	}
@@ -1741,6 +1802,23 @@ func (c *fctx) block(list []ast.Stmt, ind int, k cont) string {
 			}
 			return pad(ind) + c.ret(c.f.mut.name)
 		}
+		if len(s.Results) == 1 && len(c.f.results) > 1 && c.f.mut == nil {
+			// return g(...) forwarding all results of a whitelisted function
+			call, ok := ast.Unparen(s.Results[0]).(*ast.CallExpr)
+			if !ok {
+				t.failf(s.Pos(), "return with 1 value for %d results", len(c.f.results))
+			}
+			g := c.tupleCallee(call)
+			if len(g.results) != len(c.f.results) {
+				t.failf(s.Pos(), "return of a call with %d results for %d results", len(g.results), len(c.f.results))
+			}
+			for i := range g.results {
+				if !g.results[i].same(c.f.results[i]) || g.results[i].opt != c.f.results[i].opt {
+					t.failf(s.Pos(), "result %d of %s does not have the result type", i+1, g.display)
+				}
+			}
+			return pad(ind) + c.ret("("+c.call(call, g)+")")
+		}
 		if len(s.Results) != len(c.f.results) {
 			t.failf(s.Pos(), "return with %d values for %d results", len(s.Results), len(c.f.results))
 		}
@@ -1759,9 +1837,27 @@ func (c *fctx) block(list []ast.Stmt, ind int, k cont) string {
 					vals = append(vals, "bytes_nil")
 				case kLen:
 					vals = append(vals, "0")
+				case kList:
+					vals = append(vals, "[]")
+				case kStruct:
+					if !want.opt {
+						t.failf(r.Pos(), "nil returned at a type outside the subset")
+					}
+					vals = append(vals, "None")
 				default:
 					t.failf(r.Pos(), "nil returned at a type outside the subset")
 				}
+				continue
+			}
+			if want.opt {
+				id, ok := r.(*ast.Ident)
+				if !ok || !c.optVars[c.info.Uses[id]] {
+					t.failf(r.Pos(), "a *%s result that is neither nil nor a local pointer variable", want.st.coq)
+				}
+				if have := c.typeOf(r); !have.same(want) {
+					t.failf(r.Pos(), "returned pointer of type %s does not have the result type", c.info.TypeOf(r))
+				}
+				vals = append(vals, c.vars[c.info.Uses[id]])
 				continue
 			}
 			if have := c.typeOf(r); !have.same(want) {
@@ -1822,6 +1918,42 @@ func (c *fctx) block(list []ast.Stmt, ind int, k cont) string {
 			}
 			return pad(ind) + fmt.Sprintf("if (bytes_len %s <=? %d) then None (* panic: index out of range *) else (\n", c.expr(ix.X), k) +
 				rest(ind+2) + "\n" + pad(ind) + ")"
+		}
+		if len(s.Lhs) > 1 && len(s.Rhs) == 1 && s.Tok == token.DEFINE {
+			// x, y := g(...) with g a whitelisted function with that many results (a *S result: option S)
+			call, ok := ast.Unparen(s.Rhs[0]).(*ast.CallExpr)
+			if !ok {
+				t.failf(s.Pos(), "multi-valued short variable declaration from something that is not a call")
+			}
+			g := c.tupleCallee(call)
+			if len(g.results) != len(s.Lhs) {
+				t.failf(s.Pos(), "%d variables for the %d results of %s", len(s.Lhs), len(g.results), g.display)
+			}
+			val := c.call(call, g) // before the new variables come into scope
+			var names []string
+			for i, l := range s.Lhs {
+				id, ok := l.(*ast.Ident)
+				if !ok {
+					t.failf(l.Pos(), "short variable declaration of something that is not a variable")
+				}
+				if id.Name == "_" {
+					names = append(names, "_")
+					continue
+				}
+				o := c.info.Defs[id]
+				if o == nil {
+					t.failf(l.Pos(), "short variable declaration that redeclares %s", id.Name)
+				}
+				r := g.results[i]
+				if r.k == kErr || r.k == kBytes {
+					t.failf(l.Pos(), "local variable of error or []byte type bound to a call result")
+				}
+				if r.opt {
+					c.optVars[o] = true
+				}
+				names = append(names, c.declare(o))
+			}
+			return pad(ind) + "let '(" + strings.Join(names, ", ") + ") := (" + val + ") in\n" + rest(ind)
 		}
 		if len(s.Lhs) != 1 || len(s.Rhs) != 1 {
 			t.failf(s.Pos(), "assignment with more than one operand on a side")
@@ -1914,6 +2046,15 @@ func (c *fctx) block(list []ast.Stmt, ind int, k cont) string {
 			}
 		}
 		t.failf(s.Pos(), "internal: written parameter not found")
+	case *ast.BranchStmt:
+		if s.Tok != token.CONTINUE || s.Label != nil || len(c.loops) == 0 {
+			t.failf(s.Pos(), "%s outside the subset (only an unlabelled continue inside a loop)", s.Tok)
+		}
+		return pad(ind) + "LoopNext " + c.loops[len(c.loops)-1]
+	case *ast.RangeStmt:
+		return c.rangeStmt(s, ind, rest)
+	case *ast.ForStmt:
+		return c.forStmt(s, ind, rest)
 	case *ast.IfStmt:
 		body := func(ind int) string {
 			if g := c.typeOf(s.Cond); g.k != kBool {
@@ -2003,10 +2144,238 @@ func (c *fctx) block(list []ast.Stmt, ind int, k cont) string {
 	panic("unreachable")
 }
 
+// tupleCallee: the whitelisted function a call with several results invokes.
+func (c *fctx) tupleCallee(call *ast.CallExpr) *fn {
+	if ftv, ok := c.info.Types[call.Fun]; (ok && ftv.IsType()) || builtinOf(c.info, call) != "" {
+		c.t.failf(call.Pos(), "conversion or builtin where a call with several results is needed")
+	}
+	callee := calleeOf(c.info, call)
+	if callee == nil {
+		c.t.failf(call.Pos(), "call of a function value or an interface method")
+	}
+	g := c.t.fns[funcKey(callee)]
+	if g == nil {
+		c.t.failf(call.Pos(), "call of %s, which is not a whitelisted function", callee.Name())
+	}
+	if g.mut != nil || g.partial || len(g.results) < 2 {
+		c.t.failf(call.Pos(), "call of %s where a pure function with several results is needed", g.display)
+	}
+	return g
+}
+
+// loopState: the variables declared OUTSIDE the loop body that the body assigns (in order of first
+// assignment): the state threaded through the iterations.
+func (c *fctx) loopState(body *ast.BlockStmt, own map[types.Object]bool) (tuple string, names []string) {
+	seen := map[types.Object]bool{}
+	note := func(lhs ast.Expr) {
+		id := rootIdent(lhs)
+		if id == nil || id.Name == "_" {
+			return
+		}
+		o := c.info.Uses[id]
+		if o == nil || own[o] || seen[o] {
+			return
+		}
+		if n, ok := c.vars[o]; ok { // declared before the loop
+			seen[o] = true
+			names = append(names, n)
+		}
+	}
+	ast.Inspect(body, func(n ast.Node) bool {
+		switch x := n.(type) {
+		case *ast.AssignStmt:
+			if x.Tok != token.DEFINE {
+				for _, l := range x.Lhs {
+					note(l)
+				}
+			}
+		case *ast.IncDecStmt:
+			note(x.X)
+		case *ast.CallExpr:
+			if builtinOf(c.info, x) == "copy" && len(x.Args) == 2 {
+				note(x.Args[0])
+			} else if callee := calleeOf(c.info, x); callee != nil {
+				if _, ok := putIntrinsicOf(callee); ok && len(x.Args) == 2 {
+					note(x.Args[0])
+				} else if g := c.t.fns[funcKey(callee)]; g != nil && g.mut != nil {
+					args := c.t.callArgs(c.info, x, g)
+					for i, p := range g.params {
+						if p == g.mut {
+							note(args[i])
+						}
+					}
+				}
+			}
+		}
+		return true
+	})
+	switch len(names) {
+	case 0:
+		return "tt", names
+	case 1:
+		return names[0], names
+	}
+	return "(" + strings.Join(names, ", ") + ")", names
+}
+
+// loop emits  match <combinator> (fun <key> <elem> <state> => body) <init...> <state> with ... end.
+func (c *fctx) loop(ind int, comb, key, elem, bind, args, state string, nstate int, body *ast.BlockStmt, rest cont) string {
+	st := state
+	if nstate == 0 {
+		st = "_"
+	}
+	pat := st
+	if nstate > 1 {
+		pat = "st__"
+	}
+	out := pad(ind) + "match " + comb + " (fun " + key + " " + elem + " " + pat + " =>\n"
+	if nstate > 1 {
+		out += pad(ind+4) + "let '" + state + " := st__ in\n"
+	}
+	out += bind
+	c.loops = append(c.loops, state)
+	out += c.block(body.List, ind+4, func(ind int) string { return pad(ind) + "LoopNext " + state })
+	c.loops = c.loops[:len(c.loops)-1]
+	out += "\n" + pad(ind+2) + ") " + args + " " + state + " with\n"
+	out += pad(ind) + "| LoopReturn r__ => " + c.loopRet("r__") + "\n"
+	out += pad(ind) + "| LoopNext " + st + " =>\n" + rest(ind+4) + "\n" + pad(ind) + "end"
+	return out
+}
+
+// rangeStmt: for k, x := range e { ... } over a []S / []*S (kList), a []byte or a string. The body may
+// assign locals, continue and return; break, goto and labels are outside the subset.
+func (c *fctx) rangeStmt(s *ast.RangeStmt, ind int, rest cont) string {
+	t := c.t
+	if s.Tok != token.DEFINE && (s.Key != nil || s.Value != nil) {
+		t.failf(s.Pos(), "range that assigns to existing variables")
+	}
+	xg := c.typeOf(s.X)
+	xs := c.expr(s.X)
+	own := map[types.Object]bool{}
+	name := func(e ast.Expr) (string, types.Object) {
+		if e == nil {
+			return "_", nil
+		}
+		id, ok := e.(*ast.Ident)
+		if !ok {
+			t.failf(e.Pos(), "range variable that is not an identifier")
+		}
+		if id.Name == "_" {
+			return "_", nil
+		}
+		o := c.info.Defs[id]
+		own[o] = true
+		return c.declare(o), o
+	}
+	key, _ := name(s.Key)
+	elem, eo := name(s.Value)
+	bind := ""
+	comb := "go_range"
+	switch xg.k {
+	case kList:
+		if eo != nil {
+			if _, isPtr := eo.Type().(*types.Pointer); isPtr {
+				// the element of a []*S is a pointer: the range variable is a local *S (option S); the
+				// elements of the slice are assumed non-nil
+				c.optVars[eo] = true
+				bind = pad(ind+4) + "let " + elem + " := Some " + elem + "__ in\n"
+				elem += "__"
+			}
+		}
+	case kBytes:
+	case kString:
+		comb = "go_range_string"
+	default:
+		t.failf(s.X.Pos(), "range over %s", c.info.TypeOf(s.X))
+	}
+	state, names := c.loopState(s.Body, own)
+	args := "0 " + xs
+	return c.loop(ind, comb, key, elem, bind, args, state, len(names), s.Body, rest)
+}
+
+// forStmt: for i := 0; i < len(x); i++ { ... } with a body that assigns neither i nor x: the same
+// fold, over the indices 0 .. len(x)-1 (go_iota).
+func (c *fctx) forStmt(s *ast.ForStmt, ind int, rest cont) string {
+	t := c.t
+	bad := func() { t.failf(s.Pos(), "for loop that is not of the form `for i := 0; i < len(x); i++`") }
+	init, ok := s.Init.(*ast.AssignStmt)
+	if !ok || init.Tok != token.DEFINE || len(init.Lhs) != 1 || len(init.Rhs) != 1 {
+		bad()
+	}
+	iv, ok := init.Lhs[0].(*ast.Ident)
+	if !ok || iv.Name == "_" {
+		bad()
+	}
+	if tv := c.info.Types[init.Rhs[0]]; tv.Value == nil || constant.Sign(constant.ToInt(tv.Value)) != 0 {
+		bad()
+	}
+	io := c.info.Defs[iv]
+	if g := t.classify(iv.Pos(), io.Type()); g.k != kInt || !g.signed || g.bits != 64 {
+		bad()
+	}
+	cond, ok := s.Cond.(*ast.BinaryExpr)
+	if !ok || cond.Op != token.LSS {
+		bad()
+	}
+	if id, ok := ast.Unparen(cond.X).(*ast.Ident); !ok || c.info.Uses[id] != io {
+		bad()
+	}
+	lenCall, ok := ast.Unparen(cond.Y).(*ast.CallExpr)
+	if !ok || builtinOf(c.info, lenCall) != "len" || len(lenCall.Args) != 1 {
+		bad()
+	}
+	xid, ok := ast.Unparen(lenCall.Args[0]).(*ast.Ident)
+	if !ok {
+		bad()
+	}
+	xo := c.info.Uses[xid]
+	post, ok := s.Post.(*ast.IncDecStmt)
+	if !ok || post.Tok != token.INC {
+		bad()
+	}
+	if id, ok := ast.Unparen(post.X).(*ast.Ident); !ok || c.info.Uses[id] != io {
+		bad()
+	}
+	n := c.expr(cond.Y) // len(x), before i comes into scope
+	own := map[types.Object]bool{io: true}
+	key := c.declare(io)
+	state, names := c.loopState(s.Body, own)
+	// the body must assign neither i nor x
+	ast.Inspect(s.Body, func(nd ast.Node) bool {
+		check := func(l ast.Expr) {
+			if id := rootIdent(l); id != nil && (c.info.Uses[id] == io || c.info.Uses[id] == xo) {
+				t.failf(l.Pos(), "loop body assigns the loop variable or the slice the loop runs over")
+			}
+		}
+		switch x := nd.(type) {
+		case *ast.AssignStmt:
+			for _, l := range x.Lhs {
+				check(l)
+			}
+		case *ast.IncDecStmt:
+			check(x.X)
+		case *ast.CallExpr:
+			if builtinOf(c.info, x) == "copy" && len(x.Args) == 2 {
+				check(x.Args[0])
+			}
+		}
+		return true
+	})
+	return c.loop(ind, "go_range", key, "_", "", "0 (go_iota "+n+")", state, len(names), s.Body, rest)
+}
+
 // ret: the value a return yields: wrapped in Some for a function with an explicit bounds check.
 func (c *fctx) ret(v string) string {
 	if c.f.partial {
-		return "Some " + v
+		v = "Some " + v
+	}
+	return c.loopRet(v)
+}
+
+// loopRet: inside a loop body a return leaves the loop with LoopReturn (GoSem.v go_range).
+func (c *fctx) loopRet(v string) string {
+	if len(c.loops) > 0 {
+		return "LoopReturn (" + v + ")"
 	}
 	return v
 }
@@ -2038,7 +2407,7 @@ func stmtKind(s ast.Stmt) string {
 func (t *translator) translate(f *fn) {
 	t.cur = f
 	defer func() { t.cur = nil }()
-	c := &fctx{t: t, f: f, info: f.d.pkg.TypesInfo, vars: map[types.Object]string{}, taken: map[string]bool{}}
+	c := &fctx{t: t, f: f, info: f.d.pkg.TypesInfo, vars: map[types.Object]string{}, taken: map[string]bool{}, optVars: map[types.Object]bool{}}
 	var ps []string
 	for _, p := range f.params {
 		p.name = c.declare(p.v)
@@ -2270,13 +2639,20 @@ func run(root, out string, only []string) (status int) {
 		var fl []string
 		for _, f := range s.fields {
 			g := t.classify(f.Pos(), f.Type())
-			if g.k == kStruct {
+			if g.k == kStruct || g.k == kList {
 				emit(g.st)
 			}
 			fl = append(fl, fmt.Sprintf("%s_%s : %s", s.coq, f.Name(), g.coq()))
 		}
 		p := t.fset.Position(s.named.Obj().Pos())
 		rel, _ := filepath.Rel(root, p.Filename)
+		if len(s.fields) == 0 {
+			// only ever an element of a slice whose length is taken: a type with one value
+			fmt.Fprintf(&b, "(** %s:%d  struct %s: none of its fields is used by the translated functions *)\n", rel, p.Line, strings.TrimPrefix(s.qual, modPath))
+			fmt.Fprintf(&b, "Inductive %s := mk_%s.\nDefinition zero_%s : %s := mk_%s.\n\n", s.coq, s.coq, s.coq, s.coq, s.coq)
+			fmt.Printf("RECORD %s 0 fields\n", s.coq)
+			return
+		}
 		fmt.Fprintf(&b, "(** %s:%d  struct %s, the fields used by the translated functions *)\n", rel, p.Line, strings.TrimPrefix(s.qual, modPath))
 		fmt.Fprintf(&b, "Record %s := { %s }.\n", s.coq, strings.Join(fl, "; "))
 		for _, f := range s.fields {
@@ -2296,10 +2672,6 @@ func run(root, out string, only []string) (status int) {
 		fmt.Printf("RECORD %s %d fields\n", s.coq, len(s.fields))
 	}
 	for _, s := range t.sorder {
-		if len(s.fields) == 0 {
-			fmt.Fprintf(os.Stderr, "TRANSLATE-ERROR struct %s is used but none of its fields is\n", s.qual)
-			return 2
-		}
 		emit(s)
 	}
 	files := map[string]bool{}
